@@ -49,6 +49,13 @@ class Obj:
         return f"<{self.label}>"
 
 
+class Super:
+    """Result of a zero-argument super() inside a method of `cls` on object `obj`."""
+
+    def __init__(self, obj, cls):
+        self.obj, self.cls = obj, cls
+
+
 class Closure:
     def __init__(self, func, env=None, self_obj=None, interp=None):
         self.func = func  # loader.Func or ast.Lambda/FunctionDef
@@ -290,6 +297,9 @@ class Interp:
         try:
             env = dict(clo.env)
             env["__mod__"] = mod
+            if isinstance(f, Func) and f.cls is not None:
+                env["__defcls__"] = f.cls
+                env["__selfobj__"] = clo.self_obj if clo.self_obj is not None else (args[0] if args else None)
             a = fn.args
             params = [x.arg for x in a.posonlyargs + a.args]
             defaults = list(a.defaults)
@@ -514,6 +524,17 @@ class Interp:
         return self.attr(base, e.attr, e, mod)
 
     def attr(self, base, attr, node, mod):
+        if isinstance(base, Super):
+            mro = self.repo.mro(base.obj.cls) if base.obj.cls is not None else []
+            if base.cls in mro:
+                for k in mro[mro.index(base.cls) + 1:]:
+                    if attr in k.getters:
+                        return self.call_func(Closure(k.getters[attr], self_obj=base.obj), [], {}, node)
+                    if attr in k.methods:
+                        return Closure(k.methods[attr], self_obj=base.obj)
+            if attr == "__init__":
+                return Closure(ast.parse("lambda *a, **k: None").body[0].value)
+            raise AnalysisError(f"super().{attr} not resolvable for {base.obj!r}")
         if isinstance(base, Obj):
             if attr in base.fields:
                 return base.fields[attr]
@@ -694,6 +715,10 @@ class Interp:
         return out
 
     def e_Call(self, e, env, mod):
+        if isinstance(e.func, ast.Name) and e.func.id == "super" and not e.args and "super" not in env:
+            if env.get("__defcls__") is None or env.get("__selfobj__") is None:
+                raise AnalysisError("super() outside a method")
+            return Super(env["__selfobj__"], env["__defcls__"])
         fv = self.eval(e.func, env, mod)
         args = []
         for a in e.args:
